@@ -424,6 +424,9 @@ pub fn worker_case(case: &Value, dir: &Path) -> Value {
     if case["kind"] == "run" {
         return run_leg(case, &t);
     }
+    if case["kind"] == "builder" {
+        return builder_leg(case["depth"].as_u64().unwrap_or(3) as usize);
+    }
     let full = case["full"].as_bool().unwrap_or(false);
     let is_cyclic = cyclic(&t);
     let mut mismatches = vec![];
@@ -474,7 +477,149 @@ pub fn worker_case(case: &Value, dir: &Path) -> Value {
     json!({"queries": n, "reference_maps": ok_maps, "reference_errors": errors, "reference_entries": entries, "mismatches": mismatches})
 }
 
+/// The other public ways of recording a file with its digest: `record_artifact` (one
+/// file) and `LinkMetadataBuilder::add_material` / `add_product`. E1 over operation
+/// histories on two files: op in {add_material(f), add_product(f), write(f, c)}; after every
+/// history the built link must list, per map, exactly the files added to it, each with the
+/// digest of the bytes the file held when it was (last) added.
+fn builder_leg(depth: usize) -> Value {
+    use in_toto::models::{LinkMetadataBuilder, VirtualTargetPath};
+    let files = ["t/a", "t/ab"];
+    let conts: [&[u8]; 3] = [b"one", b"two!", b""];
+    #[derive(Clone, Copy, Debug)]
+    enum Op {
+        Am(usize),
+        Ap(usize),
+        W(usize, usize),
+    }
+    let mut ops = vec![];
+    for f in 0..2 {
+        ops.push(Op::Am(f));
+        ops.push(Op::Ap(f));
+        for c in 0..3 {
+            ops.push(Op::W(f, c));
+        }
+    }
+    let mut mismatches: Vec<Value> = vec![];
+    let mut n = 0u64;
+    let mut entries = 0usize;
+    let _ = std::fs::create_dir_all("t");
+    let mut seqs: Vec<Vec<usize>> = vec![vec![]];
+    for d in 1..=depth {
+        seqs.extend(util::sequences(ops.len(), d));
+    }
+    for seq in &seqs {
+        // a write directly followed by a write to the same file, or a trailing write, adds nothing
+        if seq.last().map(|o| matches!(ops[*o], Op::W(..))).unwrap_or(false) {
+            continue;
+        }
+        n += 1;
+        for f in files {
+            std::fs::write(f, conts[0]).unwrap();
+        }
+        let mut cur = [0usize, 0usize];
+        let mut exp_m: BTreeMap<String, BTreeMap<String, String>> = BTreeMap::new();
+        let mut exp_p = exp_m.clone();
+        let names: Vec<String> = seq.iter().map(|o| format!("{:?}", ops[*o])).collect();
+        let r = guard(|| {
+            let mut b = LinkMetadataBuilder::new().name("s".into());
+            for o in seq {
+                match ops[*o] {
+                    Op::Am(f) => b = b.add_material(VirtualTargetPath::new(files[f].to_string()).unwrap()),
+                    Op::Ap(f) => b = b.add_product(VirtualTargetPath::new(files[f].to_string()).unwrap()),
+                    Op::W(f, c) => std::fs::write(files[f], conts[c]).unwrap(),
+                }
+            }
+            b.build()
+        });
+        for o in seq {
+            match ops[*o] {
+                Op::Am(f) => {
+                    exp_m.insert(files[f].to_string(), digests(conts[cur[f]], &["sha256"]));
+                }
+                Op::Ap(f) => {
+                    exp_p.insert(files[f].to_string(), digests(conts[cur[f]], &["sha256"]));
+                }
+                Op::W(f, c) => cur[f] = c,
+            }
+        }
+        entries += exp_m.len() + exp_p.len();
+        match r {
+            Guard::Panicked(l, m) => mismatches.push(json!({"key": format!("panic:{l}"), "history": names, "what": m})),
+            Guard::Done(Err(e)) => mismatches.push(json!({"key": "builder:build-fails", "history": names, "what": format!("{e:?}")})),
+            Guard::Done(Ok(link)) => {
+                let as_map = |x: &BTreeMap<in_toto::models::VirtualTargetPath, in_toto::models::TargetDescription>| -> BTreeMap<String, BTreeMap<String, String>> { serde_json::from_value(serde_json::to_value(x).unwrap()).unwrap_or_default() };
+                let (gm, gp) = (as_map(&link.materials), as_map(&link.products));
+                if gm != exp_m {
+                    mismatches.push(json!({"key": "builder:materials-differ", "history": names, "recorded": gm, "reference": exp_m}));
+                }
+                if gp != exp_p {
+                    mismatches.push(json!({"key": "builder:products-differ", "history": names, "recorded": gp, "reference": exp_p}));
+                }
+            }
+        }
+        if mismatches.len() > 20 {
+            break;
+        }
+    }
+    // record_artifact: one file, every size x algorithm list x strip list
+    let s = |v: &[&str]| -> Vec<String> { v.iter().map(|x| x.to_string()).collect() };
+    for ci in 0..8 {
+        std::fs::write("t/a", content(ci)).unwrap();
+        for algs in [s(&["sha256"]), s(&["sha512"]), s(&["sha256", "sha512"]), s(&["sha512", "sha256"])] {
+            for strips in [None, Some(s(&["t/"])), Some(s(&["t"])), Some(s(&["x/"])), Some(s(&["t/", "t"])), Some(s(&["t", "t/"])), Some(s(&[])), Some(s(&["t/a"]))] {
+                for path in ["t/a", "./t/a", "t//a", "t/ab/../a"] {
+                    n += 1;
+                    let _ = std::fs::create_dir_all("t/ab.d");
+                    let path = path.replace("t/ab/", "t/ab.d/");
+                    let reference = fswalk(&[path.clone()], strips.as_deref(), Some(&algs));
+                    let al: Vec<in_toto::crypto::HashAlgorithm> = algs.iter().map(|a| if a == "sha512" { in_toto::crypto::HashAlgorithm::Sha512 } else { in_toto::crypto::HashAlgorithm::Sha256 }).collect();
+                    let st: Option<Vec<&str>> = strips.as_ref().map(|v| v.iter().map(|x| x.as_str()).collect());
+                    let query = json!({"record_artifact": path, "strip": strips, "algorithms": algs, "size": content(ci).len()});
+                    match guard(|| in_toto::runlib::record_artifact(&path, &al, st.as_deref())) {
+                        Guard::Panicked(l, m) => mismatches.push(json!({"key": format!("panic:{l}"), "query": query, "what": m})),
+                        Guard::Done(r) => {
+                            let imp = match r {
+                                Ok((p, d)) => {
+                                    let mut m = BTreeMap::new();
+                                    let dv: BTreeMap<String, String> = serde_json::from_value(serde_json::to_value(&d).unwrap()).unwrap_or_default();
+                                    m.insert(p.value().to_string(), dv);
+                                    Expect::Map(m)
+                                }
+                                Err(_) => Expect::Error("error"),
+                            };
+                            // the single-file call keeps the path as given (only the strip list applies)
+                            let want = match &reference {
+                                Expect::Map(m) | Expect::MapOrError(m) => {
+                                    let dg = m.values().next().cloned().unwrap_or_default();
+                                    let mut mm = BTreeMap::new();
+                                    mm.insert(strip(&path, strips.as_deref()).to_string(), dg);
+                                    Expect::Map(mm)
+                                }
+                                Expect::Error(e) => Expect::Error(e),
+                            };
+                            let same = match (&imp, &want) {
+                                (Expect::Error(_), Expect::Error(_)) => true,
+                                (Expect::Map(a), Expect::Map(b)) => a.values().next() == b.values().next() && (a.keys().next() == b.keys().next() || a.keys().next().map(|k| clean(k)) == b.keys().next().map(|k| clean(k))),
+                                _ => false,
+                            };
+                            if !same {
+                                mismatches.push(json!({"key": "record_artifact-differs", "query": query, "implementation": format!("{imp:?}"), "reference": format!("{want:?}")}));
+                            }
+                        }
+                    }
+                }
+            }
+        }
+    }
+    let _ = std::env::set_current_dir("/");
+    mismatches.truncate(12);
+    json!({"queries": n, "mismatches": mismatches, "reference_maps": n, "reference_errors": 0, "reference_entries": entries})
+}
+
 pub const COMMANDS: [&str; 7] = ["none", "create", "modify", "delete", "print", "exit3", "create-in-subdir"];
+/// Argument variants of the run leg (besides materials = products = the whole tree, defaults).
+pub const RUN_VARIANTS: [&str; 6] = ["products-one-node", "materials-one-node", "sha512+strip", "both-algorithms", "no-materials", "no-products"];
 
 fn run_leg(case: &Value, t: &Tree) -> Value {
     let cmd = case["cmd"].as_str().unwrap_or("none");
@@ -494,11 +639,26 @@ fn run_leg(case: &Value, t: &Tree) -> Value {
         "exit3" => (Some("o"), Some(""), Some(3)),
         _ => (Some(""), Some(""), Some(0)),
     };
-    let paths = vec!["t".to_string()];
-    let pre = fswalk(&paths, None, None);
+    // which paths / algorithms / strip prefixes the call gets for materials and for products
+    let variant = case["variant"].as_str().unwrap_or("same");
+    let s = |v: &[&str]| -> Vec<String> { v.iter().map(|x| x.to_string()).collect() };
+    let first_top = t.keys().find(|p| !p.contains('/')).map(|p| format!("t/{p}"));
+    let (mpaths, ppaths, algs, strips): (Vec<String>, Vec<String>, Option<Vec<String>>, Option<Vec<String>>) = match variant {
+        "products-one-node" => (s(&["t"]), first_top.clone().map(|p| vec![p]).unwrap_or(s(&["t"])), None, None),
+        "materials-one-node" => (first_top.clone().map(|p| vec![p]).unwrap_or(s(&["t"])), s(&["t"]), None, None),
+        "sha512+strip" => (s(&["t"]), s(&["t"]), Some(s(&["sha512"])), Some(s(&["t/"]))),
+        "both-algorithms" => (s(&["t"]), s(&["t"]), Some(s(&["sha256", "sha512"])), None),
+        "no-materials" => (vec![], s(&["t"]), None, Some(s(&["t"]))),
+        "no-products" => (s(&["t"]), vec![], Some(s(&["sha256"])), None),
+        _ => (s(&["t"]), s(&["t"]), None, None),
+    };
+    let pre = fswalk(&mpaths, strips.as_deref(), algs.as_deref());
     let args: Vec<&str> = argv.iter().map(|s| s.as_str()).collect();
-    let r = guard(|| in_toto_run("step", Some("."), &["t"], &["t"], &args, None, None, None));
-    let post = fswalk(&paths, None, None);
+    let (mp, pp): (Vec<&str>, Vec<&str>) = (mpaths.iter().map(|x| x.as_str()).collect(), ppaths.iter().map(|x| x.as_str()).collect());
+    let al: Option<Vec<&str>> = algs.as_ref().map(|v| v.iter().map(|x| x.as_str()).collect());
+    let st: Option<Vec<&str>> = strips.as_ref().map(|v| v.iter().map(|x| x.as_str()).collect());
+    let r = guard(|| in_toto_run("step", Some("."), &mp, &pp, &args, None, al.as_deref(), st.as_deref()));
+    let post = fswalk(&ppaths, strips.as_deref(), algs.as_deref());
     let _ = std::env::set_current_dir("/");
     let mut mismatches = vec![];
     match r {
@@ -518,6 +678,9 @@ fn run_leg(case: &Value, t: &Tree) -> Value {
             }
             if !cyc && matches!(post, Expect::Map(_)) && as_map(&v["products"]) != post {
                 mismatches.push(json!({"key": "products-not-post-state", "recorded": v["products"], "reference": format!("{post:?}")}));
+            }
+            if v["name"] != "step" {
+                mismatches.push(json!({"key": "link-name-differs", "recorded": v["name"]}));
             }
             let by = &v["byproducts"];
             let got = (by["stdout"].as_str(), by["stderr"].as_str(), by["return-value"].as_i64().map(|x| x as i32));
@@ -547,7 +710,13 @@ pub fn run(tier: Tier) -> i32 {
         for cmd in COMMANDS {
             cases.push(json!({"kind": "run", "tree": tree_json(t), "cmd": cmd}));
         }
+        for variant in RUN_VARIANTS {
+            for cmd in ["none", "create", "modify", "delete"] {
+                cases.push(json!({"kind": "run", "tree": tree_json(t), "cmd": cmd, "variant": variant}));
+            }
+        }
     }
+    cases.push(json!({"kind": "builder", "tree": {}, "depth": if tier.thorough() { 5 } else { 4 }}));
     let results = worker::run_cases("c18", &cases, if tier.thorough() { 1500 } else { 300 });
     let mut acc = Acc::new();
     acc.states = trees.len() as u64;
@@ -570,7 +739,7 @@ pub fn run(tier: Tier) -> i32 {
                 acc.outcome(if ms.is_empty() { "agrees-with-reference" } else { "differs-from-reference" });
                 for m in ms {
                     let key = m["key"].as_str().unwrap_or("other").to_string();
-                    acc.violation(&key, &format!("recording differs from the files present ({key})"), || json!({"kind": case["kind"], "cmd": case["cmd"], "tree": case["tree"], "mismatch": m}));
+                    acc.violation(&key, &format!("recording differs from the files present ({key})"), || json!({"kind": case["kind"], "cmd": case["cmd"], "variant": case["variant"], "tree": case["tree"], "mismatch": m}));
                 }
                 if i % 500 == 17 {
                     acc.sample(|| json!({"tree": case["tree"], "kind": case["kind"]}));
@@ -586,7 +755,7 @@ pub fn run(tier: Tier) -> i32 {
         c.caps_hit.push(format!("tree cap {cap} hit at {max_nodes} nodes"));
     }
     c.acc = acc;
-    c.rule = "state = directory tree reached by appending one node under an existing directory (mkdir; write with size in {0,1,1023,1024,1025,4097,8193,70001} for single-node trees and {1,1025} otherwise; symlink absolute/relative to any existing node or to an ancestor incl. the root), names assigned in the fixed order a, ab, .h, 'e é', deduplicated on the sorted listing; per tree a menu of queries (whole tree x 7 strip lists x 6 algorithm lists; non-normalised roots; each top-level node as root; two roots in both orders; overlapping and repeated roots) through record_artifacts in a private cwd, compared with an independent walker; plus in_toto_run with 7 commands on a subset. non-trivial = trees with a symlink, and run cases".into();
+    c.rule = "state = directory tree reached by appending one node under an existing directory (mkdir; write with size in {0,1,1023,1024,1025,4097,8193,70001} for single-node trees and {1,1025} otherwise; symlink absolute/relative to any existing node or to an ancestor incl. the root), names assigned in the fixed order a, ab, .h, 'e é', deduplicated on the sorted listing; per tree a menu of queries (whole tree x 7 strip lists x 6 algorithm lists; non-normalised roots; each top-level node as root; two roots in both orders; overlapping and repeated roots) through record_artifacts in a private cwd, compared with an independent walker; plus in_toto_run with 7 commands on a subset, and with 6 argument variants (materials and products from different paths, other algorithms, strip prefixes, one side empty) x 4 commands; plus every history of depth <= 4 (5) over {add_material(f), add_product(f), write(f, c)} on 2 files x 3 contents through LinkMetadataBuilder, and record_artifact on one file x 8 sizes x 4 algorithm lists x 8 strip lists x 4 spellings. non-trivial = trees with a symlink, and run cases".into();
     c.bound_completed = format!("all trees with <= {max_nodes} nodes ({} trees{})", trees.len(), if capped { ", capped" } else { "" });
     c.assume("real filesystem (tmpfs); no dangling symlinks, devices, permission errors or non-UTF-8 names");
     c.assume("a file reached twice through the same key is one entry; two different files with one key must be an error");
@@ -594,7 +763,7 @@ pub fn run(tier: Tier) -> i32 {
 }
 
 pub fn replay(case: &Value) -> Value {
-    let inner = json!({"kind": case["kind"], "cmd": case["cmd"], "tree": case["tree"], "full": true});
+    let inner = json!({"kind": case["kind"], "cmd": case["cmd"], "variant": case["variant"], "tree": case["tree"], "full": true, "depth": 4});
     let results = worker::run_cases("c18", std::slice::from_ref(&inner), 120);
     match &results[0] {
         WorkerResult::Done(out) => {
